@@ -405,7 +405,9 @@ fn one_sequence(test_repo: &TestRepo, out: &mut Out, r: &mut Rng, src: Source, s
         (Ok(()), Some((sig, detail))) => {
             let ops = run.ops.join(" ");
             // the root-probe stream is the only one that passes the root commit to `add_head`/`edit`;
-            // its failures get their own signature so that the generic one stays unexplained elsewhere
+            // its failures get their own signature: that of the finding repaired by the guard
+            // `!head.parent_ids().is_empty()` in `MutableRepo::add_heads` (listed as `fixed` in
+            // known_findings.json, which suppresses nothing — a return of the defect is a VIOLATION)
             let root_op = run.ops.iter().any(|o| o == "addhead:0" || (o.starts_with("edit:") && o.ends_with(":0")));
             // (a root left among the heads also defeats later fast-path updates: `add_head(child of root)`)
             let sig = if root_op && (sig == "heads:root-among-other-heads" || sig == "heads:head-is-ancestor-of-head") {
@@ -524,13 +526,17 @@ pub fn run(cfg: &Cfg, out: &mut Out) {
         let len = r2.range(6, 30);
         one_sequence(&test_repo, out, &mut r2, Source::Random { len, low_level: true, probe_root: false }, "normalisation-only", false);
     }
-    // root probe: `add_head(root)` / `edit(ws, root)` (see notes/C10.md, known finding)
+    // root probe: `add_head(root)` / `edit(ws, root)`.  The first two scripts are the reproducers of the
+    // repaired finding `heads:not-normalized:after-add-head-of-root` (see notes/C10.md): they used to
+    // commit heads {0,1} and must now commit {1}; model and oracle are checked on them like on any
+    // other sequence.
     for script in ["new:0 commit addhead:0 commit", "new:0 commit edit:0:0 commit", "new:0 addhead:0 commit",
                    "new:0 new:1 bm:0:2 commit edit:1:0 new:2 commit", "new:0 commit bm:0:0 commit", "new:0 commit co:0:0 commit"] {
         let ops: Vec<Op> = script.split(' ').map(|s| parse_op(s).unwrap()).collect();
         one_sequence(&test_repo, out, &mut r2, Source::Script(&ops), "root-probe", true);
     }
-    for i in 0..cfg.n(40, 1_000) {
+    for i in 0..cfg.n(300, 5_000) {
+        if i % 100 == 99 { test_repo = TestRepo::init(); }
         let mut r3 = cfg.rng(20_000_000 + i);
         let len = r3.range(4, 16);
         one_sequence(&test_repo, out, &mut r3, Source::Random { len, low_level: false, probe_root: true }, "root-probe", true);
